@@ -39,7 +39,7 @@ This should cover most use cases, but you can use `forger_function` or
 
 from functools import partial, update_wrapper
 
-from sigtools import _util, modifiers, signatures, _specifiers
+from sigtools import _util, modifiers, signatures, _specifiers, _verif
 
 __all__ = [
     'signature',
@@ -63,12 +63,18 @@ class _AsForged(object):
     def __get__(self, instance, owner):
         obj = owner if instance is None else instance
         if obj in self.currently_computing:
+            if _verif.enabled:
+                _verif.emit('GuardHit', obj=id(obj))
             raise AttributeError
         try:
             self.currently_computing.add(obj)
+            if _verif.enabled:
+                _verif.emit('GuardAdd', obj=id(obj))
             sig = signature(obj)
         finally:
             self.currently_computing.discard(obj)
+            if _verif.enabled:
+                _verif.emit('GuardDiscard', obj=id(obj))
         return sig
 
 
